@@ -139,6 +139,9 @@ def register(lib):
             return NPScalar(NP.to_float(v), dt)
         raise Unsupported('scalar astype')
     M[('NPScalar', 'astype')] = nps_astype
+    # elements of modelled arrays are plain scalars: x.astype(t) on them behaves like on a numpy scalar
+    M[('int', 'astype')] = lambda I, v, dt: nps_astype(I, NPScalar(v, 'int64'), dt)
+    M[('float', 'astype')] = lambda I, v, dt: nps_astype(I, NPScalar(v, 'float64'), dt)
 
     def np_squeeze(I, a, axis=None):
         a = untag(a)
